@@ -388,9 +388,6 @@ def check_build_cases(ctx, rep, cases):
             finding = None
             if not ans['aligned'] and got == ans['expect']:
                 finding = 'bits-zero-fill'
-            elif name == 'coils' and case['wo'] == '<' and got == ans[key] and \
-                    (ans['aligned'] or real['dec_bytes'] == ans['expect']):
-                finding = 'fromcoils-wordorder'
             rep.violation('values decoded after transport as %s differ from the values packed' % name, case,
                           finding=finding, transport=name, impl=got, packed=vals)
         # ---- direct predicate on the Python objects (independent of the pattern conversion for ints)
